@@ -19,7 +19,7 @@ ASSUMPTIONS = [
     'a catch-all probe handler with priority 1000 marks the dispatch start of every event',
 ]
 REQUIRED = ['pass_with_mixed_priorities', 'fired_from_handler_during_pass', 'stop_called', 'nested_flush', 'equal_priority_ties',
-            'negative_and_float_priorities', 'nested_flush_on_last_of_batch']
+            'negative_and_float_priorities', 'nested_flush_on_last_of_batch', 'multi_channel_event']
 REQUIRED_OBLIGATIONS = ['ORD', 'NOJUMP', 'NOREENTRY', 'HPRIO', 'STOP', 'ONCE']
 WORKER_TIMEOUT = {'quick': 300, 'thorough': 1500}
 ENGINE = 'stepping-driver'
@@ -54,8 +54,10 @@ def evaluate(case, w):
     marks = set()
     counts = {'ORD': 0, 'NOJUMP': 0, 'NOREENTRY': 0, 'HPRIO': 0, 'STOP': 0, 'ONCE': 0, 'ALLRUN': 0}
     declared = {}
+    hchan = {}
     for hd in case['handlers']:
         declared.setdefault(hd['name'], []).append((hd['hid'], hd.get('prio', 0)))
+        hchan[hd['hid']] = hd.get('channel')
     queued = {}
     seq = 0
     cur = None  # the running top-level pass
@@ -141,6 +143,10 @@ def evaluate(case, w):
             problems.append(('ONCE', {'event': uid, 'name': info['name'], 'dispatched': info['dispatched']}))
             continue
         decl = declared.get(info['name'], [])
+        chans = info['spec'].get('channels')
+        if chans:
+            marks.add('multi_channel_event')
+            decl = [(h, p) for h, p in decl if hchan.get(h) in chans]
         ran = hs.get(uid, [])
         counts['ALLRUN'] += 1
         if uid in stops:
@@ -182,6 +188,13 @@ def corpus():
         HD(1, 'a', 0, [['fire', EV('c', -1)], ['flush'], ['fire', EV('c', 1)]]), HD(2, 'b', 0, [['fire', EV('c', 0)], ['flush']]),
         HD(3, 'c', 0, [['fire', EV('d', 0)]]), HD(4, 'd', 0, [])],
         'passes': [[EV('a', 0), EV('b', 1), EV('c', 2)], [EV('b', 0)], [EV('a', -1), EV('a', -1)]]})
+    # an event fired to several channels: its handlers on all of them run in one descending priority order, stop() cuts across channels
+    cs.append({'name': 'multi-channel', 'handlers': [
+        dict(HD(1, 'm', 1, []), channel='a'), dict(HD(2, 'm', -2, []), channel='a'), dict(HD(3, 'm', 3, []), channel='b'),
+        dict(HD(4, 'm', 0.5, []), channel='b'), dict(HD(5, 'h', 1, []), channel='a'), dict(HD(6, 'h', 3, [['stop']]), channel='b'),
+        dict(HD(7, 'h', -1, []), channel='b'), dict(HD(8, 'h', 0, []), channel='c')],
+        'passes': [[dict(EV('m'), channels=['a', 'b']), dict(EV('m'), channels=['b', 'a']), dict(EV('h'), channels=['a', 'b']),
+                    dict(EV('h'), channels=['c', 'a', 'b']), dict(EV('m', 1), channels=['a'])]]})
     # deep nesting with priorities that would jump the queue if dispatched in the same pass
     cs.append({'name': 'deep', 'handlers': [
         HD(1, 'a', 0, [['fire', EV('b', -2)]]), HD(2, 'b', 0, [['fire', EV('c', -2)]]), HD(3, 'c', 0, [['fire', EV('d', -2)]]), HD(4, 'd', 0, []),
@@ -213,6 +226,15 @@ def gen_case(rng):
     passes = []
     for _ in range(rng.randint(1, 4)):
         passes.append([EV(rng.choice(names[rng.randint(0, nlev - 1)]), rng.choice(PRIOS)) for _ in range(rng.randint(1, 7))])
+    if rng.random() < 0.35:
+        # a dedicated name whose handlers all listen on explicit channels, fired to several of them at once
+        for _ in range(rng.randint(2, 5)):
+            hid += 1
+            body = [['stop']] if rng.random() < 0.2 else []
+            handlers.append(dict(HD(hid, 'mc', rng.choice(PRIOS), body), channel=rng.choice('abc')))
+        for ps in passes:
+            if rng.random() < 0.7:
+                ps.insert(rng.randint(0, len(ps)), dict(EV('mc', rng.choice(PRIOS)), channels=rng.sample(['a', 'b', 'c'], rng.randint(1, 3))))
     return {'handlers': handlers, 'passes': passes}
 
 
